@@ -21,7 +21,7 @@ func Run(r *fw.Run) {
 	} else {
 		r.SetBudget(30 * time.Minute)
 	}
-	for _, sc := range expo.Scopes(r.Quick()) {
+	for _, sc := range append(expo.Scopes(r.Quick()), expo.DigitNamespaceScope(r.Quick())) {
 		fw.Explore(r, sc.Name, fw.Full, sc.Gen, func(w *wm.World, x *fw.Rec) {
 			res := expo.Check(w)
 			x.Describe(expo.Describe(w))
